@@ -147,7 +147,9 @@ def welford_rolling(F, R):
                 welford_rolling._B = (F, B_, B_.pre + B_.houdini())
             B_, entry_ = welford_rolling._B[1], welford_rolling._B[2]
             ctx_ = B_.ctx(m.last_vg)
-            data_conds = [c for c in conds if not structural_cond(c, ctx_)]
+            from .e3_bounds import data_driven_int_cells, mentions_cells, field_types as _ft
+            ddc_ = data_driven_int_cells(m, _ft(F, v))
+            data_conds = [c for c in conds if not structural_cond(c, ctx_) or mentions_cells(c, ddc_)]
             H = Hyps(entry_ + [c for c in conds if structural_cond(c, ctx_)], ctx_)
             if data_conds:
                 # which of the three answers is given must depend on the sample count only
